@@ -6,7 +6,8 @@ cd "$(dirname "$0")/.."
 ID="${1:?seeded id}"; TIER="${2:-quick}"
 D="seeded/$ID"
 PROP=$(python3 -c "import json;print(json.load(open('$D/meta.json'))['property'])")
-W=/dev/shm/seeded-$ID
+[ -n "${3:-}" ] && PROP="$3"   # cross-check: run another property's check against this change
+W=/dev/shm/seeded-$ID${3:+-$3}
 rm -rf "$W" "$W.verif-out"; mkdir -p "$W"
 git -C /repo archive HEAD | tar -x -C "$W"
 # untracked hook files of /repo (if any) are needed by the workers too
